@@ -7,6 +7,7 @@ import Qentem.Proofs.BigIntWide
 import Qentem.Proofs.BigIntWideOps
 import Qentem.Proofs.BigIntDivHand
 import Qentem.Proofs.BigIntCopy
+import Qentem.Proofs.BigIntSurface
 /-! C19 — BigInt holds the exact mathematical integer after every operation that fits.
 
 `Inv W s` (Proofs/BigIntBasic) is the representation invariant: n ≥ 1 words below 2^W, the words above
@@ -47,6 +48,7 @@ def Typed (W : Nat) : Op → Prop
   | .assign K _ => TypeOK W K
   | .bop _ K _ => TypeOK W K
   | .narrow K => TypeOK W K
+  | .construct K _ => TypeOK W K
   | _ => True
 
 /-- **C19, full strength** (statement; proved below as `C19`): every operation of every configuration
@@ -223,6 +225,121 @@ theorem step_exact (c : Cfg) (hm : MulOK c) (hd : DivOK c) (op : Op) (hc : Typed
     obtain ⟨rfl, rfl⟩ := hspec
     obtain ⟨s', hrun, hinv, hl, hv⟩ := clear_spec (W := c.W) s h
     exact ⟨s', by simp [step, hrun, bind, Except.bind, pure, Except.pure], hinv, hl, hv⟩
+  | construct K x =>
+    simp only [specStep] at hspec
+    split at hspec
+    · rename_i hx
+      simp only [Option.some.injEq, Prod.mk.injEq] at hspec
+      obtain ⟨rfl, rfl⟩ := hspec
+      have hn : 0 < s.words.length := Nat.lt_of_le_of_lt (Nat.zero_le _) h.idx_lt
+      have hz : Inv c.W (zero s.words.length) := inv_zero h.wpos hn
+      have hlz : (zero s.words.length).words.length = s.words.length := by simp [zero]
+      rcases hc with hc | ⟨hc1, hc2⟩
+      · obtain ⟨s', hrun, hinv, hl, hv⟩ := assign_small_spec (zero s.words.length) x hz hc hx.1
+        rw [assign_zero_eq] at hrun
+        exact ⟨s', by simp [step, hrun, bind, Except.bind, pure, Except.pure], hinv, by omega, hv⟩
+      · obtain ⟨s', hrun, hinv, hl, hv⟩ := assign_wide_spec (zero s.words.length) x hz hc1 hc2 hx.1
+          (by rw [hlz, ← pow_comm']; exact hx.2)
+        rw [assign_zero_eq] at hrun
+        exact ⟨s', by simp [step, hrun, bind, Except.bind, pure, Except.pure], hinv, by omega, hv⟩
+    · exact absurd hspec (by simp)
+  | addAt x i =>
+    simp only [specStep] at hspec
+    split at hspec
+    · rename_i hx
+      simp only [Option.some.injEq, Prod.mk.injEq] at hspec
+      obtain ⟨rfl, rfl⟩ := hspec
+      obtain ⟨s', hrun, hinv, hl, hv⟩ := addAt_spec s x i h hx.1 (by
+        have := hx.2; rwa [Nat.mul_comm s.words.length c.W] at this)
+      exact ⟨s', by simp [step, hrun, bind, Except.bind, pure, Except.pure], hinv, hl, hv⟩
+    · exact absurd hspec (by simp)
+  | subAt x i =>
+    simp only [specStep] at hspec
+    split at hspec
+    · rename_i hx
+      simp only [Option.some.injEq, Prod.mk.injEq] at hspec
+      obtain ⟨rfl, rfl⟩ := hspec
+      obtain ⟨s', hrun, hinv, hl, hv⟩ := subAt_spec s x i h hx.1 hx.2
+      exact ⟨s', by simp [step, hrun, bind, Except.bind, pure, Except.pure], hinv, hl, hv⟩
+    · exact absurd hspec (by simp)
+  | divq d =>
+    simp only [specStep] at hspec
+    split at hspec
+    · rename_i hx
+      simp only [Option.some.injEq, Prod.mk.injEq] at hspec
+      obtain ⟨rfl, rfl⟩ := hspec
+      obtain ⟨s', r', hrun, hinv, hl, hv, hr⟩ := divide_spec hd s d h hx.1 hx.2
+      have hdm := (Nat.div_mod_unique hx.1).2 ⟨(by rw [Nat.add_comm]; exact hv.symm : r' + d * s'.val c.W = s.val c.W), hr⟩
+      exact ⟨s', by simp [step, hrun, bind, Except.bind, pure, Except.pure], hinv, hl, hdm.1.symm⟩
+    · exact absurd hspec (by simp)
+  | self k =>
+    have hB : 0 < 2 ^ c.W := Nat.pow_pos (by decide)
+    have hw : s.val c.W % 2 ^ c.W < 2 ^ c.W := Nat.mod_lt _ hB
+    have hnum := number_spec s h
+    cases k with
+    | add =>
+      simp only [specStep] at hspec
+      split at hspec
+      · rename_i hfit
+        simp only [Option.some.injEq, Prod.mk.injEq] at hspec
+        obtain ⟨rfl, rfl⟩ := hspec
+        obtain ⟨s', hrun, hinv, hl, hv⟩ := add_small_spec s _ h (Nat.le_refl c.W) hw (by rw [← pow_comm']; exact hfit)
+        exact ⟨s', by simp [step, hnum, hrun, bind, Except.bind, pure, Except.pure], hinv, hl, hv⟩
+      · exact absurd hspec (by simp)
+    | sub =>
+      simp only [specStep, Option.some.injEq, Prod.mk.injEq] at hspec
+      obtain ⟨rfl, rfl⟩ := hspec
+      obtain ⟨s', hrun, hinv, hl, hv⟩ := sub_small_spec s _ h (Nat.le_refl c.W) hw (Nat.mod_le _ _)
+      exact ⟨s', by simp [step, hnum, hrun, bind, Except.bind, pure, Except.pure], hinv, hl, hv⟩
+    | or =>
+      simp only [specStep, Option.some.injEq, Prod.mk.injEq] at hspec
+      obtain ⟨rfl, rfl⟩ := hspec
+      obtain ⟨s', hrun, hinv, hl, hv⟩ := or_small_spec s _ h (Nat.le_refl c.W) hw
+      exact ⟨s', by simp [step, hnum, hrun, bind, Except.bind, pure, Except.pure], hinv, hl, hv⟩
+    | and =>
+      simp only [specStep, Option.some.injEq, Prod.mk.injEq] at hspec
+      obtain ⟨rfl, rfl⟩ := hspec
+      obtain ⟨s', hrun, hinv, hl, hv⟩ := and_small_spec s _ h (Nat.le_refl c.W) hw
+      exact ⟨s', by simp [step, hnum, hrun, bind, Except.bind, pure, Except.pure], hinv, hl, hv⟩
+    | mul =>
+      simp only [specStep] at hspec
+      split at hspec
+      · rename_i hfit
+        simp only [Option.some.injEq, Prod.mk.injEq] at hspec
+        obtain ⟨rfl, rfl⟩ := hspec
+        obtain ⟨s', hrun, hinv, hl, hv⟩ := multiply_spec hm s _ h hw (by rw [← pow_comm']; exact hfit)
+        exact ⟨s', by simp [step, hnum, hrun, bind, Except.bind, pure, Except.pure], hinv, hl, hv⟩
+      · exact absurd hspec (by simp)
+    | div =>
+      simp only [specStep] at hspec
+      split at hspec
+      · rename_i hpos
+        simp only [Option.some.injEq, Prod.mk.injEq] at hspec
+        obtain ⟨rfl, rfl⟩ := hspec
+        obtain ⟨s', r', hrun, hinv, hl, hv, hr⟩ := divide_spec hd s _ h hpos hw
+        have hdm := (Nat.div_mod_unique hpos).2 ⟨(by rw [Nat.add_comm]; exact hv.symm :
+          r' + (s.val c.W % 2 ^ c.W) * s'.val c.W = s.val c.W), hr⟩
+        refine ⟨s', ?_, hinv, hl, hdm.1.symm⟩
+        simp [step, hnum, hrun, bind, Except.bind, pure, Except.pure, hdm.2]
+      · exact absurd hspec (by simp)
+  | setIndex i => exact absurd hspec (by simp [specStep])
+  | store i v => exact absurd hspec (by simp [specStep])
+  | maxIndexC =>
+    simp only [specStep, Option.some.injEq, Prod.mk.injEq] at hspec
+    obtain ⟨rfl, rfl⟩ := hspec
+    exact ⟨s, by simp [step, maxIndex, pure, Except.pure], h, rfl, rfl⟩
+  | typeWidthC =>
+    simp only [specStep, Option.some.injEq, Prod.mk.injEq] at hspec
+    obtain ⟨rfl, rfl⟩ := hspec
+    exact ⟨s, by simp [step, pure, Except.pure], h, rfl, rfl⟩
+  | totalBitsC =>
+    simp only [specStep, Option.some.injEq, Prod.mk.injEq] at hspec
+    obtain ⟨rfl, rfl⟩ := hspec
+    exact ⟨s, by simp [step, pure, Except.pure], h, rfl, rfl⟩
+  | sizeOfTypeC =>
+    simp only [specStep, Option.some.injEq, Prod.mk.injEq] at hspec
+    obtain ⟨rfl, rfl⟩ := hspec
+    exact ⟨s, by simp [step, pure, Except.pure], h, rfl, rfl⟩
 
 /-- Lifting to operation sequences: if every operation of the sequence is exact, then whenever the
 exact-integer run is defined (everything fits), the checked model run does not fault, returns the
@@ -372,6 +489,31 @@ theorem step2_exact (c : Cfg) (hg : GoodCfg c) (o : Op2) (ht : Typed2 c.W o) (p 
     obtain ⟨t', hrun2, hinv2, hl2, hv2⟩ := clear_spec (W := c.W) p.t hy
     exact ⟨⟨d', t'⟩, by simp [step2, hrun, hrun2, bind, Except.bind, pure, Except.pure], hinv, hinv2, hl',
       (by show t'.words.length = _; omega), hv, hv2⟩
+  | selfCopy =>
+    simp only [specStep2, Option.some.injEq, Prod.mk.injEq] at hspec
+    obtain ⟨rfl, rfl, rfl⟩ := hspec
+    exact ⟨p, rfl, hx, hy, rfl, hl, rfl, rfl⟩
+  | selfMove =>
+    simp only [specStep2, Option.some.injEq, Prod.mk.injEq] at hspec
+    obtain ⟨rfl, rfl, rfl⟩ := hspec
+    exact ⟨p, rfl, hx, hy, rfl, hl, rfl, rfl⟩
+  | copyCtor =>
+    simp only [specStep2, Option.some.injEq, Prod.mk.injEq] at hspec
+    obtain ⟨rfl, rfl, rfl⟩ := hspec
+    have hn : 0 < p.t.words.length := Nat.lt_of_le_of_lt (Nat.zero_le _) hy.idx_lt
+    have hlz : (zero p.t.words.length).words.length = p.t.words.length := by simp [zero]
+    obtain ⟨d', hrun, hinv, hl', hv⟩ := copy_spec (zero p.t.words.length) p.x (inv_zero hy.wpos hn) hx (by omega)
+    exact ⟨⟨p.x, d'⟩, by simp [step2, hrun, bind, Except.bind, pure, Except.pure], hx, hinv, rfl,
+      (by show d'.words.length = _; omega), rfl, hv⟩
+  | moveCtor =>
+    simp only [specStep2, Option.some.injEq, Prod.mk.injEq] at hspec
+    obtain ⟨rfl, rfl, rfl⟩ := hspec
+    have hn : 0 < p.x.words.length := Nat.lt_of_le_of_lt (Nat.zero_le _) hx.idx_lt
+    have hlz : (zero p.x.words.length).words.length = p.x.words.length := by simp [zero]
+    obtain ⟨d', hrun, hinv, hl', hv⟩ := copy_spec (zero p.x.words.length) p.t (inv_zero hx.wpos hn) hy (by omega)
+    obtain ⟨t', hrun2, hinv2, hl2, hv2⟩ := clear_spec (W := c.W) p.t hy
+    exact ⟨⟨d', t'⟩, by simp [step2, hrun, hrun2, bind, Except.bind, pure, Except.pure], hinv, hinv2,
+      (by show d'.words.length = _; omega), (by show t'.words.length = _; omega), hv, hv2⟩
 
 /-- **C19 over operation sequences on two objects** (everything `BigInt` offers, including copy and
 move assignment), for the configuration the C++ selects for `W`-bit words, any `n ≥ 1`. -/
